@@ -2,7 +2,7 @@
    Property theorems only; proofs are in Proofs/PtpWire*.v, Proofs/TlvSet.v, Proofs/CsptpMsg.v.
    Model: Model/PtpWire.v (34-byte header, all ten message bodies, TLV sets as validated byte
    strings, the TLV set builder), of the repaired code (branch fix-c41). *)
-From V Require Import Model.PtpWire Proofs.TlvSet Proofs.CsptpMsg Proofs.PtpWireSerDe.
+From V Require Import Model.PtpWire Proofs.TlvSet Proofs.CsptpMsg Proofs.PtpWireSerDe Proofs.PtpWireDeSer4.
 
 (* Serialise then parse.  For every header, body (all ten types) and list of TLVs whose fields
    are within the ranges of their Rust types (header_ok, body_ok, tlv_ok: no other hypothesis --
@@ -36,6 +36,33 @@ Proof.
   right. exists m. split; [exact E|]. split; [exact V|]. apply tlvs_valid_ok. exact V.
 Qed.
 
+(* Parse then serialise.  For every byte string (bytes 0..255, any length) that parses, the parsed
+   message serialises into any zeroed buffer that is long enough, and the result is the parsed
+   prefix (the first message_length bytes) under the fixed mask [normalise] of Model/PtpWire.v:
+   header flag bits 3, 4, 7 of byte 6 and bit 7 of byte 7, bytes 16-19 and the control byte 32 are
+   written as zero; so are bytes 44-53 of a peer-delay request, byte 46 of an announce and byte
+   44 of a management message; byte 49 of an announce (clock accuracy) and byte 47 of a
+   management message (action) are written with the code of the value they were read as
+   (reserved accuracies as 0, actions above 5 as 5); every other position, including all TLVs,
+   is reproduced exactly. *)
+Theorem C41_de_ser : forall buf m n,
+  bytes_ok buf -> msg_deserialize buf = Ok m -> (message_length buf <= n)%nat ->
+  msg_serialize m (repeat 0 n) = Ok (normalise (firstn (message_length buf) buf)).
+Proof. intros buf m n Hb H Hn. exact (proj1 (de_ser buf m n Hb H Hn)). Qed.
+
+(* literal equality when the input has the reserved positions zero and canonical codes *)
+Theorem C41_de_ser_literal : forall buf m n,
+  bytes_ok buf -> msg_deserialize buf = Ok m -> (message_length buf <= n)%nat ->
+  normalise (firstn (message_length buf) buf) = firstn (message_length buf) buf ->
+  msg_serialize m (repeat 0 n) = Ok (firstn (message_length buf) buf).
+Proof. intros buf m n Hb H Hn E. rewrite <- E. apply C41_de_ser; assumption. Qed.
+
+(* parse, serialise, parse again: the same message *)
+Theorem C41_deser_ser_deser : forall buf m n,
+  bytes_ok buf -> msg_deserialize buf = Ok m -> (message_length buf <= n)%nat ->
+  exists out, msg_serialize m (repeat 0 n) = Ok out /\ msg_deserialize out = Ok m.
+Proof. exact de_ser_de. Qed.
+
 (* non-vacuity: a Sync with a TLV set [type 3, value 01 02][Pad, empty value] -- the set that the
    unrepaired parser rejected -- is built, serialised into a dirty buffer and parsed back; an
    odd-length value is refused by the builder; an announce message whose time source has no wire
@@ -56,6 +83,21 @@ Proof.
   split; vm_compute; reflexivity.
 Qed.
 
+(* a management message with reserved bits and bytes set, an action code above 5 and two bytes of
+   padding parses; it re-serialises to the masked prefix, which differs from the input *)
+Definition ex_mgmt : bytes :=
+  [13; 18; 0; 52; 7; 0; 255; 255; 0; 0; 0; 0; 0; 1; 0; 0; 9; 9; 9; 9; 1; 2; 3; 4; 5; 6; 7; 8; 0; 1; 0; 5; 9; 250;
+   8; 7; 6; 5; 4; 3; 2; 1; 0; 2; 77; 3; 2; 200; 0; 3; 0; 0; 99; 99].
+Example C41_nonvacuous_de_ser :
+  exists m, msg_deserialize ex_mgmt = Ok m
+    /\ msg_serialize m (repeat 0 52) = Ok (normalise (firstn (message_length ex_mgmt) ex_mgmt))
+    /\ normalise (firstn (message_length ex_mgmt) ex_mgmt) <> firstn (message_length ex_mgmt) ex_mgmt
+    /\ length (normalise (firstn (message_length ex_mgmt) ex_mgmt)) = 52%nat.
+Proof. eexists. split; [vm_compute; reflexivity|]. split; [vm_compute; reflexivity|]. split; [vm_compute; discriminate|vm_compute; reflexivity]. Qed.
+
 Print Assumptions C41_ser_de.
 Print Assumptions C41_ser_de_valid_set.
 Print Assumptions C41_total.
+Print Assumptions C41_de_ser.
+Print Assumptions C41_de_ser_literal.
+Print Assumptions C41_deser_ser_deser.
